@@ -13,6 +13,7 @@ package c15
 
 import (
 	"fmt"
+	"os"
 	"runtime"
 	"sort"
 	"strings"
@@ -926,6 +927,9 @@ func (r *run) checkPar(op Op, obs []*taskObs, recs []*ls.Record, ob *parObs, ref
 				okState, okOrder = s, order
 			}
 			continue
+		}
+		if os.Getenv("VERIF_DBG_ORDERS") != "" {
+			fmt.Printf("order %v: %s: %s\n", order, m.class, m.msg)
 		}
 		if worst == nil || (c.IsKnown(m.class) && !c.IsKnown(worst.class)) || (c.IsKnown(m.class) == c.IsKnown(worst.class) && m.stage > worst.stage) {
 			worst, worstOrder = m, order
